@@ -69,3 +69,8 @@ add('C10', 'exploration', 'runtime cross-check of every looked-up address agains
     'Every function symbol of the running binary and 200 generated variables in all data sections are looked up by name through goom\'s symbol-table reader and compared with the address the running process really uses; near-miss and absent names must produce an error; the same sources are rebuilt and re-run stripped (-s, -w) and position-independent. All symbols of the binary are enumerated; link modes are the four listed.',
     'Function names are compared after the runtime\'s own [...] normalisation of generic names; cgo stubs have no runtime name and are checked by entry address only.',
     'DESIGN.md 2 C10')
+
+add('C02', 'exploration', 'whole-text-image differ + reference model after every step of generated and exhaustively enumerated apply/stub/cancel/reset histories',
+    'Histories over 18 adjacent targets and 1-3 builders are executed through the public API; after every single step the complete executable image is compared with its pristine copy (differences must be well-formed entry jumps of currently mocked targets or lie in used placeholders) and all targets plus neighbours are called and compared with the model; all histories up to length 3/4 over a 2x2 alphabet are enumerated. Random histories are sampled; the small alphabet is exhaustive to the stated length.',
+    'When two builders touch the same target only the unambiguous clauses are asserted (own target restored by own Reset/Cancel; everything pristine once nobody holds it; bytes always pristine or a well-formed jump).',
+    'DESIGN.md 2 C02')
